@@ -198,10 +198,15 @@ impl<S: ZeroCopyConnection> World<S> {
             })
         };
         if h != H::None {
+            // which refusal wins when the role is held *and* the parameters mismatch is not specified
+            let mut allowed = vec![ZeroCopyCreationError::AnotherInstanceIsAlreadyConnected];
+            if let Some(sp) = self.m.storage {
+                allowed.extend(mismatch_errors(&p, &sp));
+            }
             ensure!(
-                res == Err(ZeroCopyCreationError::AnotherInstanceIsAlreadyConnected),
+                matches!(res, Err(e) if allowed.contains(&e)),
                 "seq.second_same_role",
-                "{what} with the role held ({h:?}) -> {res:?}, expected AnotherInstanceIsAlreadyConnected"
+                "{what} with the role held ({h:?}) -> {res:?}, expected one of {allowed:?}"
             );
             obs.class("second_same_role_refused");
             if h == H::Abandoned {
